@@ -19,6 +19,9 @@ pub enum Mutation {
     BlobVersion(usize),
     /// add 1 to the version bits of this index header
     IndexVersion(usize),
+    /// subtract 1 from the version bits of this index header (an index of an EARLIER format generation: it must be thrown
+    /// away and rebuilt just like a later one - the file on disk ends up byte-identical to the pinned original again)
+    IndexVersionDown(usize),
     /// open the directory with ANOTHER bloom configuration than the one its index files were written with (off <-> on,
     /// other size): filters may never change an answer. With `extend` new blobs are then written and closed under the new
     /// configuration (old and new filter formats meet in one filter group) and the directory is reopened lazily.
@@ -119,10 +122,11 @@ pub fn run_compat(c: &CompatCase, dir: &Path, verif_dir: &Path, _findings: &Find
             bytes[8] = bytes[8].wrapping_add(1);
             let _ = std::fs::write(&p, bytes);
         }
-        Mutation::IndexVersion(b) => {
+        Mutation::IndexVersion(b) | Mutation::IndexVersionDown(b) => {
             let p = sut::index_path(dir, *b);
             if let Ok(mut bytes) = std::fs::read(&p) {
-                bytes[crate::blobfmt::INDEX_WRITTEN_BYTE] = bytes[crate::blobfmt::INDEX_WRITTEN_BYTE].wrapping_add(2);
+                let v = bytes[crate::blobfmt::INDEX_WRITTEN_BYTE];
+                bytes[crate::blobfmt::INDEX_WRITTEN_BYTE] = if matches!(c.mutation, Mutation::IndexVersionDown(_)) { v.wrapping_sub(2) } else { v.wrapping_add(2) };
                 let _ = std::fs::write(&p, bytes);
             }
         }
@@ -300,7 +304,7 @@ pub fn run_compat(c: &CompatCase, dir: &Path, verif_dir: &Path, _findings: &Find
             return fail("close/err", format!("{:#}", e));
         }
         let mut regenerated = c.removed.clone();
-        if let Mutation::IndexVersion(b) = &c.mutation {
+        if let Mutation::IndexVersion(b) | Mutation::IndexVersionDown(b) = &c.mutation {
             regenerated.push(*b);
         }
         for id in &regenerated {
@@ -358,6 +362,8 @@ pub fn enumerate(verif_dir: &Path) -> Vec<CompatCase> {
         for b in &with_index {
             out.push(CompatCase { dir: d.clone(), removed: vec![], lazy: false, mutation: Mutation::IndexVersion(*b), rt_workers: 2 });
             out.push(CompatCase { dir: d.clone(), removed: vec![], lazy: true, mutation: Mutation::IndexVersion(*b), rt_workers: 2 });
+            out.push(CompatCase { dir: d.clone(), removed: vec![], lazy: false, mutation: Mutation::IndexVersionDown(*b), rt_workers: 2 });
+            out.push(CompatCase { dir: d.clone(), removed: vec![], lazy: true, mutation: Mutation::IndexVersionDown(*b), rt_workers: 2 });
         }
     }
     out
@@ -378,7 +384,7 @@ pub fn run(ctx: &RunCtx) -> PropResult {
     PropResult {
         report,
         level: "exploration",
-        rule: "Cross-version differential over a committed corpus: 20 directories written by the pinned tree (8fcb7aa, hooks off): 5 with the short key sizes 1 / 2 / 3 / 12 / 16 (every length class of the bloom hash below 17 bytes) and a bloom filter each, 3 with key sizes 32 / 128 / 8 and timestamps from {0, 1, 3, 2^33+5, 2^33+6, u64::MAX-1, u64::MAX}, 9 small ones with key sizes 4/8/33, bloom none / 100-bit / 1237-bit / 80 000-bit, group sizes 2-8, 2-4 blobs, deletion markers, metadata, values across both write-path thresholds, and 3 'tree' directories (key sizes 8/33/400, 245-533 records over 2-3 blobs) whose index files have one to three levels of inner B+tree nodes; each with expected.json recording every answer the pinned code gave (read, contains, read_all_with_deletion_marker with every entry loaded, read_with x 3 metas, counts). Enumerated exhaustively: every subset of removed index files x eager/lazy init; opening with each other key size (with and without index files); opening with ANOTHER bloom configuration than the files were written with (off <-> on, other size), optionally writing and closing group-size + 2 new blobs under it and reopening lazily - every recorded answer must still hold; version bump of every blob header; version bump of every index header. Oracle: answers equal expected.json for every present/absent index combination - with the filters as loaded and again after off-loading the bloom buffers (level 0, then all levels), so that in-file filter probing of pinned index files is exercised - and after an index-version bump (the index is regenerated); index files rebuilt by the current code are byte-identical to the ones the pinned code wrote; a bumped blob version makes init fail; another key size never yields a successful read (init error, or everything quarantined with records_count 0). Non-trivial = at least one index removed or a mutation applied. distinct = FNV hash of the serialized case; the enumeration is complete for this corpus.".into(),
+        rule: "Cross-version differential over a committed corpus: 20 directories written by the pinned tree (8fcb7aa, hooks off): 5 with the short key sizes 1 / 2 / 3 / 12 / 16 (every length class of the bloom hash below 17 bytes) and a bloom filter each, 3 with key sizes 32 / 128 / 8 and timestamps from {0, 1, 3, 2^33+5, 2^33+6, u64::MAX-1, u64::MAX}, 9 small ones with key sizes 4/8/33, bloom none / 100-bit / 1237-bit / 80 000-bit, group sizes 2-8, 2-4 blobs, deletion markers, metadata, values across both write-path thresholds, and 3 'tree' directories (key sizes 8/33/400, 245-533 records over 2-3 blobs) whose index files have one to three levels of inner B+tree nodes; each with expected.json recording every answer the pinned code gave (read, contains, read_all_with_deletion_marker with every entry loaded, read_with x 3 metas, counts). Enumerated exhaustively: every subset of removed index files x eager/lazy init; opening with each other key size (with and without index files); opening with ANOTHER bloom configuration than the files were written with (off <-> on, other size), optionally writing and closing group-size + 2 new blobs under it and reopening lazily - every recorded answer must still hold; version bump of every blob header; version bump and version decrement of every index header. Oracle: answers equal expected.json for every present/absent index combination - with the filters as loaded and again after off-loading the bloom buffers (level 0, then all levels), so that in-file filter probing of pinned index files is exercised - and after an index-version bump (the index is regenerated); index files rebuilt by the current code are byte-identical to the ones the pinned code wrote; a bumped blob version makes init fail; another key size never yields a successful read (init error, or everything quarantined with records_count 0). Non-trivial = at least one index removed or a mutation applied. distinct = FNV hash of the serialized case; the enumeration is complete for this corpus.".into(),
         assumptions: {
             let mut a = common_assumptions();
             a.push("covers only formats the pinned tree can write; the corpus is small by construction (tools/corpusgen is its generator, kept for provenance)".into());
